@@ -179,7 +179,7 @@ SYNAPSES = ["IonotropicSynapse", "TestSynapse"]
 C03_MECHS = CHANNELS + SYNAPSES
 
 # dyadic parameter alphabets for the parameters kinetics depend on (every singular voltage is then a dyadic rational)
-KIN_ALPHABET = {"vt": [-70.0, -60.0, -50.5], "taumax": [100.0, 4000.0], "vx": [0.0, 2.0], "k_minus": [0.025, 1.0]}
+KIN_ALPHABET = {"vt": [-70.0, -60.0, -50.5], "taumax": [100.0, 4000.0], "vx": [0.0, 2.0], "k_minus": [1e-3, 0.025, 1.0]}
 
 
 def defaults(mech):
